@@ -1034,6 +1034,49 @@ def r14q(ctx, rep, rule="R14q"):
                     "different" % nm, bad[:2])
     rep.floor(rule, "arguments handed to equal? by the walkers", n, 6)
 
+
+def r14r(ctx, rep, rule="R14r"):
+    """the accumulator holds scalars and references, never a freshly built aggregate"""
+    facts = ctx["facts"]
+    rep.rule(rule, "objects live in the heap: a vector, string, pair or closure has an identity only as a heap cell, and everything "
+             "that stores %acc (define, set!, PUSH, vector-set!) stores what is in it. Wherever run_one assigns %acc a value it has "
+             "just built with an aggregate constructor (VCell::vector, VCell::string, a Pair / Closure / Vector / String variant) "
+             "the value passes through Heap::put / maybe_put first; an inline aggregate in %acc is copied by every later store, so "
+             "(define v `#(1 2)) made (eq? v v) false and mutations through one copy were invisible through the other.")
+    f = need(rep, rule, facts, RUN_ONE)
+    if f is None:
+        return
+    AGG_CTORS = ("marwood::vm::vcell::VCell::vector", "marwood::vm::vcell::VCell::string", "marwood::vm::vcell::VCell::new_pair")
+    AGG_VARIANTS = ("Vector", "String", "Pair", "Closure", "LexicalEnv", "Lambda", "Continuation")
+    n = 0
+    bad = []
+    for bb, j, st in f.stmts():
+        lp = st["lhs"]
+        if not (lp["l"] == 1 and [e.get("n") for e in lp["p"] if isinstance(e, dict)][:1] == ["acc"]):
+            continue
+        n += 1
+        rv = st["rv"]
+        o = f.origin(rv["a"]) if rv["k"] == "use" else ("rv", st)
+        inline = False
+        if o[0] == "call" and (callee(o[1]) or "") in AGG_CTORS:
+            inline = True
+        if o[0] == "rv" and o[1]["rv"]["k"] == "agg" and (o[1]["rv"].get("adt") or "").endswith("vcell::VCell") and o[1]["rv"].get("variant") in AGG_VARIANTS:
+            inline = True
+        if inline:
+            bad.append(st["loc"])
+    for bb, t in f.calls():
+        dp = t["dest"]
+        if dp["l"] == 1 and [e.get("n") for e in dp["p"] if isinstance(e, dict)][:1] == ["acc"]:
+            n += 1
+            if (callee(t) or "") in AGG_CTORS:
+                bad.append(t["loc"])
+    key = rule + "|run_one|acc-gets-no-inline-aggregate"
+    (rep.ok if not bad else rep.fail)(
+        rule, key, "run_one assigns %%acc no aggregate it has just constructed without putting it on the heap (%d writes of %%acc)" % n if not bad else
+        "run_one assigns %acc an aggregate straight from its constructor, without Heap::put: the object has no heap cell, every "
+        "store of %acc copies it, and eq? on it is false", bad)
+    rep.floor(rule, "writes of %acc in run_one", n, 7)
+
 def run(ctx, rep):
     r14a(ctx, rep)
     r14b(ctx, rep)
@@ -1049,6 +1092,7 @@ def run(ctx, rep):
     r14m(ctx, rep)
     r14o(ctx, rep)
     r14q(ctx, rep)
+    r14r(ctx, rep)
     from . import popbalance
     popbalance.r_arity_table(ctx, rep, "R14n", R7RS_ARITY_C14, "the list and vector procedures C14 names")
     from .C15 import fresh_results
